@@ -24,7 +24,15 @@ var evC02 = ev.New("C02", "derived frame (two columns per type, nulls) x clause 
 func TestC02(t *testing.T) {
 	rapid.Check(t, func(t *rapid.T) {
 		base := hx.GenTable(t, hx.TableOpt{PerKind: 2, SharedEnum: true, AllowDerived: true, MinEnum: 2})
-		d := hx.GenDerived(t, base, 4)
+		steps := 4
+		if hx.Rarely(t, 1500, "blocksize") {
+			b := hx.GenBlockTable(t)
+			// two columns per type, as the clause generator expects
+			b.Cols = append(b.Cols, b.Cols[2], b.Cols[3], b.Cols[4])
+			b.Cols[7].Name, b.Cols[8].Name, b.Cols[9].Name = "b2", "s2", "e2"
+			base, steps = b, 1
+		}
+		d := hx.GenDerived(t, base, steps)
 		// C02 owns Filter (and the frame must be what the derivation says)
 		obs, err := hx.Observe(d.QF)
 		if err != nil {
